@@ -522,10 +522,17 @@ lazy_stat(struct archive_write_disk *a)
 	 * XXX At this point, symlinks should not be hit, otherwise
 	 * XXX a race occurred.  Do we want to check explicitly for that?
 	 */
+	/*
+	 * While a safe-writes temporary file is open, a->name still refers
+	 * to the file that is going to be replaced, not to the file we are
+	 * writing.
+	 */
 #ifdef HAVE_LSTAT
-	if (lstat(a->name, &a->st) == 0)
+	if (lstat((a->fd >= 0 && a->tmpname != NULL) ? a->tmpname : a->name,
+	    &a->st) == 0)
 #else
-	if (la_stat(a->name, &a->st) == 0)
+	if (la_stat((a->fd >= 0 && a->tmpname != NULL) ? a->tmpname : a->name,
+	    &a->st) == 0)
 #endif
 	{
 		a->pst = &a->st;
